@@ -9,6 +9,7 @@ import (
 	"verif/internal/model"
 	"verif/internal/ref"
 	"verif/internal/run"
+	"verif/internal/zoo"
 )
 
 func init() {
@@ -122,7 +123,7 @@ func runC10(c *run.Ctx) {
 		kind := kinds[i%3]
 		refl := kind == "reflect"
 		so := gen.SchemaOpts{Args: !refl, Abstract: true, Mutation: true}
-		do := gen.DocOpts{Frags: true, Vars: true, Aliases: true, Abstract: true, Mutation: true, Depth: 2 + i%3}
+		do := gen.DocOpts{Frags: true, Vars: true, Aliases: true, Abstract: true, Mutation: true, Depth: 2 + i%3, DupKeys: i%2 == 0}
 		base := newExecCase(c.Rand(i), so, do)
 		if refl && !back.ReflectFriendly(base.S) {
 			continue
@@ -335,6 +336,67 @@ func runC10(c *run.Ctx) {
 					rep("valid sibling selections differ from the run without the offender: expected " + ref.Render(exp.Data))
 				}
 				c.Count("sibling_comparisons", 1)
+			}
+		}
+	}
+	// reflection methods: the only argument guard under reflection is ggql's own; every element of a list must be refused
+	// and the method must not run; a defect placed in a selection that repeats an already produced response key must be reported too
+	zooCases := []struct{ text, offender, method string }{
+		{`{ items { id label(prefix: "p", upper: true, bogus: 1) } }`, "bogus", "Item.Label"},
+		{`{ items { label(bogus: 1) } name }`, "bogus", "Item.Label"},
+		{`{ name hello(name: "x", extra: 2) }`, "extra", "Query.Hello"},
+		{`{ self { items { label(prefix: "a", nope: "z") } } items { label(prefix: "b", nope: "z") } }`, "nope", "Item.Label"},
+		{`{ name items { id } items { nope_field_zz } }`, "nope_field_zz", ""},
+		{`{ name n: name n: nope_field_zz }`, "nope_field_zz", ""},
+		{`{ items { id } ...More } fragment More on Query { items { label(prefix: "q", bogus: 1) } }`, "bogus", "Item.Label"},
+		{`{ self { name } ... on Query { self(bogus: 2) { name } } }`, "bogus", ""},
+		{`{ label(upper: true) }`, "prefix", "Query.Label"},
+		{`{ items { id } items { label(prefix: 3) } }`, "", "Item.Label"},
+	}
+	for round := 0; round < c.N(3, 40); round++ {
+		for zi, zc := range zooCases {
+			root, _, err := zoo.NewRoot()
+			if err != nil {
+				c.Violation("c10-zoo-schema", map[string]interface{}{"error": err.Error()})
+				return
+			}
+			exe, perr := root.ParseExecutableString(zc.text)
+			for rep := 0; rep < 2; rep++ { // the same parsed document twice: the refusal must not wear off
+				before := int64(0)
+				if zc.method != "" {
+					before = zoo.CallCount(zc.method)
+				}
+				var res map[string]interface{}
+				var rerr error
+				if perr == nil {
+					pv, _ := run.Protect(func() { res, rerr = root.ResolveExecutable(exe, "", nil) })
+					if pv != nil {
+						c.Violation("c10-zoo-panic", map[string]interface{}{"document": zc.text, "panic": fmt.Sprint(pv)})
+						break
+					}
+				} else {
+					rerr = perr
+				}
+				injected++
+				c.Eval(fmt.Sprintf("zoo|%s|%d|%d", zc.text, rep, round), true)
+				c.Bucket("defect", "reflection-method-catalogue")
+				msgs := ""
+				if rerr != nil {
+					msgs = rerr.Error()
+				}
+				diag := ""
+				switch {
+				case rerr == nil:
+					diag = "no error reported"
+				case zc.offender != "" && !strings.Contains(msgs, zc.offender):
+					diag = "no error names " + zc.offender
+				case zc.method != "" && zoo.CallCount(zc.method) != before:
+					diag = fmt.Sprintf("method %s was invoked %d time(s) for the offending selection", zc.method, zoo.CallCount(zc.method)-before)
+				}
+				if diag != "" {
+					c.Violation("c10-reflection-method", map[string]interface{}{"document": zc.text, "case": zi, "resolution": rep + 1, "diag": diag, "errors": clip(msgs, 600), "data": fmt.Sprint(res)})
+					break
+				}
 			}
 		}
 	}
